@@ -245,6 +245,21 @@ def known_findings(pid):
     return [e for e in d.get("findings", []) if e.get("property") == pid and e.get("status") == "open"]
 
 
+class LazyReplay(dict):
+    """a replay object with fields that are computed only when a failure is actually recorded (e.g. the history of the
+    calls made before the failing one)"""
+
+    def __init__(self, base, **lazy):
+        super().__init__(base)
+        self._lazy = lazy
+
+    def resolved(self):
+        d = dict(self)
+        for k, f in self._lazy.items():
+            d[k] = f()
+        return d
+
+
 class Check:
     """Accumulates the outcome of one run of one property's check."""
 
@@ -292,7 +307,7 @@ class Check:
         self._nreplay += 1
         rp = os.path.join(VERIF, "replays", "%s_%s_%d_%d.json" % (self.pid, self.tier, self.seed, self._nreplay))
         obj = {"property": self.pid, "key": key, "what": what}
-        obj.update(replay)
+        obj.update(replay.resolved() if isinstance(replay, LazyReplay) else replay)
         with open(rp, "w") as f:
             json.dump(obj, f, indent=1, default=str)
         self.violations.append((rp, what, no_failing_input))
